@@ -204,7 +204,7 @@ class TablerowNode(Node):
         buffer.write('<tr class="row1">\n')
         _break = False
 
-        with context.extend(namespace):
+        with context.extend(namespace), context.loop_iterations(length):
             for item in tablerow:
                 namespace[name] = item
                 buffer.write(f'<td class="col{tablerow.col}">')
@@ -253,7 +253,7 @@ class TablerowNode(Node):
         buffer.write('<tr class="row1">\n')
         _break = False
 
-        with context.extend(namespace):
+        with context.extend(namespace), context.loop_iterations(length):
             for item in tablerow:
                 namespace[name] = item
                 buffer.write(f'<td class="col{tablerow.col}">')
